@@ -128,7 +128,9 @@ func (api *API) mapDecodeBasedOnType(ctx context.Context, mapVal any, value refl
 				return nil
 			}
 
-			return api.mapDecodeSlice(ctx, mapVal, sliceValue, sliceValueType, ts, opts)
+			return decodeArrayViaSlice(value.Elem(), func(sliceValue reflect.Value, sliceValueType reflect.Type) error {
+				return api.mapDecodeSlice(ctx, mapVal, sliceValue, sliceValueType, ts, opts)
+			})
 		}
 
 	case reflect.Struct:
@@ -155,7 +157,9 @@ func (api *API) mapDecodeBasedOnType(ctx context.Context, mapVal any, value refl
 			return nil
 		}
 
-		return api.mapDecodeSlice(ctx, mapVal, sliceValue, sliceValueType, ts, opts)
+		return decodeArrayViaSlice(value, func(sliceValue reflect.Value, sliceValueType reflect.Type) error {
+			return api.mapDecodeSlice(ctx, mapVal, sliceValue, sliceValueType, ts, opts)
+		})
 	case reflect.Interface:
 		return api.mapDecodeInterface(ctx, mapVal, value, valueType, ts, opts)
 	case reflect.String:
